@@ -124,8 +124,10 @@ func (f *Func) callGraph(args *argBuilder) (
 				continue
 			}
 
+			// Outputs of the identical interface type are matched by the
+			// subtype rules below; here we only link implementations.
 			v2, ok := raw2.(*typedOutputVertex)
-			if !ok || !v2.Type.Implements(v.Type) {
+			if !ok || v2.Type == v.Type || !v2.Type.Implements(v.Type) {
 				continue
 			}
 
